@@ -287,13 +287,19 @@ func (inf *c01Inf) w2(c *Case, probeE bool) string {
 func (inf *c01Inf) probeE() string {
 	done := make(chan struct{})
 	go func() { defer close(done); inf.vi.EnableKubeEventCb() }()
-	select {
-	case <-done:
-		inf.eApplied = true
-		return "enabled"
-	case <-time.After(c01Probe):
-		inf.eDone = done
-		return "blocked"
+	timer := time.After(c01Probe)
+	for {
+		select {
+		case a := <-inf.arrive:
+			// it got the lock although the model says it is held: let it run to its end
+			a.Release()
+		case <-done:
+			inf.eApplied = true
+			return "enabled"
+		case <-timer:
+			inf.eDone = done
+			return "blocked"
+		}
 	}
 }
 
@@ -325,15 +331,48 @@ func (inf *c01Inf) s2(tag string) string {
 	return ""
 }
 
-func (inf *c01Inf) e() string {
+func (inf *c01Inf) e() string { return inf.eProbing(nil) }
+
+// eProbing runs the unlock. At its yield points (after the flag flip, before the replay — both
+// inside eventBufLock in the code as it is) it tries the hand-over of a parked watch event, which
+// must be blocked until the unlock has finished.
+func (inf *c01Inf) eProbing(c *Case) string {
 	done := make(chan struct{})
 	go func() { defer close(done); inf.vi.EnableKubeEventCb() }()
-	select {
-	case <-done:
-	case <-time.After(c01Wait):
-		return "hang"
+	for {
+		select {
+		case a := <-inf.arrive:
+			if c != nil && strings.HasPrefix(a.Name, "informer.enable.") && inf.wEv != nil && !inf.pendingW2Done {
+				// at EVERY yield point of the unlock: the parked hand-over must still be blocked
+				if !inf.w2Going {
+					inf.wParked.Release()
+					inf.w2Going = true
+				}
+				select {
+				case fa := <-inf.arrive:
+					// the hand-over got eventBufLock in the middle of the unlock: let it finish first
+					c.Op("probe-in-e w2", "enabled")
+					fa.Release()
+					select {
+					case <-inf.wDone:
+					case <-time.After(c01Wait):
+						a.Release()
+						return "hang"
+					}
+					inf.wParked, inf.wEv, inf.w2Going = nil, nil, false
+					inf.pendingW2Done = true
+				case <-time.After(c01Probe):
+					c.Op("probe-in-e w2", "blocked")
+				}
+				c.Note("probe:w2-in-e")
+			}
+			a.Release()
+		case <-done:
+			return ""
+		case <-time.After(c01Wait):
+			return "hang"
+		}
 	}
-	return ""
 }
 
 // c01Track mirrors the CONTROL state of the model (who is parked where), only to generate enabled
@@ -396,7 +435,7 @@ func c01Run(c *Case, rng *Rng, types []string, jq, keepFull bool, watch []c01Ev,
 				r = inf.finishE()
 			}
 		case "e":
-			r = inf.e()
+			r = inf.eProbing(c)
 		case "probe":
 			switch f[1] {
 			case "e":
@@ -437,6 +476,17 @@ func c01Run(c *Case, rng *Rng, types []string, jq, keepFull bool, watch []c01Ev,
 		c.Note("act:" + f[0])
 		c.Op(act, inf.dump(extra))
 		stepOracle()
+		if f[0] == "e" && inf.w2Going {
+			// a hand-over probed inside the unlock was blocked on eventBufLock: it has the lock now
+			// and must finish before anybody else can use it
+			c.Note("act:w2")
+			if r := inf.w2(c, false); r != "" {
+				c.Op("w2", r)
+				return false
+			}
+			c.Op("w2", inf.dump(""))
+			stepOracle()
+		}
 		return true
 	}
 	for _, a := range script {
@@ -490,10 +540,16 @@ func (inf *c01Inf) finishE() string {
 	if inf.eDone == nil {
 		return inf.e()
 	}
-	select {
-	case <-inf.eDone:
-	case <-time.After(c01Wait):
-		return "hang"
+	for {
+		select {
+		case a := <-inf.arrive:
+			a.Release() // the yield points inside the unlock itself
+			continue
+		case <-inf.eDone:
+		case <-time.After(c01Wait):
+			return "hang"
+		}
+		break
 	}
 	inf.eDone = nil
 	return ""
